@@ -238,6 +238,7 @@ def inspect_is_pure(V, h, stats, plots=False):
     ch = h.chain
     calls = [("mode", lambda: ch.mode()), ("get_interval", lambda: ch.get_interval(0.9, burn=0)),
              ("get_interval(samples)", lambda: ch.get_interval(0.5, burn=0, samples=3)),
+             ("get_interval(thin, samples)", lambda: ch.get_interval(0.9, 1, 2, 3)),
              ("get_parameter", lambda: ch.get_parameter(0, burn=0, thin=2)), ("get_sample", lambda: ch.get_sample(burn=1, thin=1)),
              ("get_probabilities", lambda: ch.get_probabilities(burn=0, thin=3))]
     if n >= 5:
@@ -258,13 +259,28 @@ def inspect_is_pure(V, h, stats, plots=False):
     done = []
     for name, f in calls:
         try:
-            f()
+            out_ = f()
             done.append(name)
         except Exception:  # noqa - whether a diagnostic works on this chain is not C03's business
-            pass
+            continue
         finally:
             if name in ("plot_diagnostics", "trace_plot", "matrix_plot"):
                 plt.close("all")
+        if name.startswith("get_interval"):
+            # samples handed out together with log-probabilities: each value must be the log-density of its own row
+            try:
+                R_, Q_ = np.asarray(out_[0], dtype=float), np.asarray(out_[1], dtype=float).reshape(-1)
+                ok_ = R_.ndim == 2 and R_.shape[0] == Q_.shape[0]
+            except Exception:  # noqa
+                ok_ = False
+            if ok_:
+                stats["interval_pairs_checked"] += int(Q_.shape[0])
+                for k_ in range(Q_.shape[0]):
+                    want_ = h.target.logpdf(R_[k_]) / h.T
+                    if not oracles.close(Q_[k_], want_, rtol=1e-9, atol=1e-9):
+                        _viol(V, "probs.belong", "%s: %s returned the sample %r together with the log-probability %r, but posterior(sample)/T "
+                              "= %r" % (h.label, name, R_[k_].tolist(), float(Q_[k_]), want_))
+                        return
     stats["inspect_calls"] += len(done)
     after = fingerprint()
     if after != before:
